@@ -50,7 +50,7 @@ WORDS = ("café", "naïve", "가나", "q̣̇x", "alpha",
 PURPOSES = ("p1", "p2", "transit", "café", "café", "x/y z", "")
 RELATIONS = ("same", "same", "nfd", "nfd_partial", "mark_order", "char",
              "insert", "delete", "case", "nameplate", "compat", "appid",
-             "nfd+appid")
+             "nfd+appid", "hyphen")
 
 
 def relate(tape, code, relation):
@@ -85,6 +85,11 @@ def relate(tape, code, relation):
     if relation == "delete":
         i = tape.choose(len(rest), "dpos")
         return np + "-" + rest[:i] + rest[i + 1:]
+    if relation == "hyphen":
+        # one more hyphen: doubled between the words, or trailing
+        i = tape.pick([k for k, ch in enumerate(rest) if ch == "-"] +
+                      [len(rest)], "hpos")
+        return np + "-" + rest[:i] + "-" + rest[i:]
     if relation == "case":
         sw = rest.swapcase()
         return np + "-" + sw
@@ -119,6 +124,13 @@ def run_one(seed, tape, opts):
     relation = tape.pick(RELATIONS, "relation")
     base = "%d-%s-%s" % (1 + tape.choose(60, "np"), tape.pick(WORDS, "w1"),
                          tape.pick(WORDS + ("fig",), "w2"))
+    shape = tape.choose(8, "shape")
+    if shape == 0:
+        base = base.replace("-", "--", 2).replace("--", "-", 1)  # N-w1--w2
+    elif shape == 1:
+        base = base + "-"                                        # trailing
+    elif shape == 2:
+        base = base.rsplit("-", 1)[0]                            # one word
     code_a = base
     code_b = relate(tape, base, relation)
     appid_a = "sim.example/app"
